@@ -136,7 +136,8 @@ FramesOf(t) == IF t.k = "event" THEN << <<"e", t.l, t.n>> >>
 
 Install(s) == /\ writer' = s.w /\ sup' = s.sup /\ val' = s.val /\ wq' = s.wq /\ sq' = s.sq /\ task' = s.task
 
-Res(s) == [hw |-> s.w = "present", some |-> (St.w = "present" /\ s.task.k # "none")]
+\* what the caller sees: did push / push_special / replace_and_pop return a WriteTask
+Res(s) == [some |-> (St.w = "present" /\ s.task.k # "none")]
 
 PushSupply(l) ==
     /\ linked[l] /\ NPush < MaxPush
@@ -184,7 +185,7 @@ Complete ==
            s  == PopF([St EXCEPT !.task = NoTask]) IN
        /\ Install(s)
        /\ got' = [l \in SLanes |-> got[l] \o EvOf(fr, l)]
-       /\ lastAct' = [k |-> "complete", fr |-> fr, hw |-> s.w = "present", some |-> s.task.k # "none"]
+       /\ lastAct' = [k |-> "complete", fr |-> fr, some |-> s.task.k # "none"]
     /\ UNCHANGED <<linked, nspec, nsync, nval, ep, cur>>
 
 Next == \/ \E l \in SLanes : PushSupply(l) \/ PushSynced(l) \/ PushLinked(l) \/ PushUnlinked(l)
